@@ -124,7 +124,7 @@ func runC09(c *fw.C) {
 	}
 	c.Desc("cfg{%s} pool=%d ops=%d", cfg, pool, nops)
 	d := NewDriver(c, "C09", cfg, pool)
-	d.WPersist, d.WReload, d.WClone = 9, 4, 2
+	d.WPersist, d.WReload, d.WClone, d.WFault = 9, 4, 2, 4
 	d.OnRoot = func(d *Driver, root *mast.Root) {
 		cl, det, nodes := checkShape(d.E, root, c)
 		c.Obs("versions_walked", 1)
